@@ -73,14 +73,14 @@ theorem items_of_raw (b : Nat) (blk : Block) (e : Emitted) (he : e ∈ blockRaw 
 
 /-- `a` covers the window starting at `w`: every block of the chain in the window has all items of
 its header bloom set in its column. -/
-def Good (chain : List Block) (W w : Nat) (a : Agg) : Prop :=
-  ∀ b blk, w ≤ b → b < w + W → chain[b]? = some blk → ∀ it ∈ blk.bloom, a.test b it = true
+def Good (chain : List Block) (W floor w : Nat) (a : Agg) : Prop :=
+  ∀ b blk, w ≤ b → b < w + W → floor ≤ b → chain[b]? = some blk → ∀ it ∈ blk.bloom, a.test b it = true
 
 /-- Header blooms cover the events of their block (what `core.EventsBloom` guarantees). -/
 def ChainWF (chain : List Block) : Prop := ∀ blk ∈ chain, ∀ it ∈ blk.items, it ∈ blk.bloom
 
-theorem no_false_neg_window (f : Filter) (chain : List Block) (W w : Nat) (a : Agg)
-    (hg : Good chain W w a) (hwf : ChainWF chain) (b : Nat) (h1 : w ≤ b) (h2 : b < w + W)
+theorem no_false_neg_window (f : Filter) (chain : List Block) (W floor w : Nat) (a : Agg)
+    (hg : Good chain W floor w a) (hwf : ChainWF chain) (b : Nat) (h1 : w ≤ b) (h2 : b < w + W) (h3 : floor ≤ b)
     (hne : blkSel f chain b ≠ []) : mayMatch (a.test b) f = true := by
   unfold blkSel at hne
   cases hb : chain[b]? with
@@ -98,22 +98,23 @@ theorem no_false_neg_window (f : Filter) (chain : List Block) (W w : Nat) (a : A
     have hmem : blk ∈ chain := List.mem_of_getElem? hb
     apply mayMatch_of_matches _ f e.ev hm
     intro it hit
-    exact hg b blk h1 h2 hb it (hwf blk hmem it (items_of_raw b blk e he it hit))
+    exact hg b blk h1 h2 h3 hb it (hwf blk hmem it (items_of_raw b blk e he it hit))
 
 /-! ### Loading a window -/
 
 def CacheGood (cfg : Cfg) (n : Node) (cache : WinMap) : Prop :=
-  ∀ w a, (w, a) ∈ cache → Good n.chain cfg.W w a
+  ∀ w a, (w, a) ∈ cache → Good n.chain cfg.W n.floor w a
 
 /-- What a query over blocks `≤ hi` needs from the index. -/
 structure Servable (cfg : Cfg) (n : Node) (hi : Nat) : Prop where
-  running : Good n.chain cfg.W n.running.from_ n.running
-  persisted : ∀ w, w % cfg.W = 0 → w ≤ hi → w ≠ n.running.from_ →
-    ∃ a, n.persisted.lookup w = some a ∧ a.from_ = w ∧ Good n.chain cfg.W w a
+  running : Good n.chain cfg.W n.floor n.running.from_ n.running
+  persisted : ∀ w, w % cfg.W = 0 → al cfg.W n.floor ≤ w → w ≤ hi → w ≠ n.running.from_ →
+    ∃ a, n.persisted.lookup w = some a ∧ a.from_ = w ∧ Good n.chain cfg.W n.floor w a
 
 theorem loadWindow_ok (cfg : Cfg) (n : Node) (hi : Nat) (cache : WinMap) (w : Nat)
-    (hs : Servable cfg n hi) (hc : CacheGood cfg n cache) (hw : w % cfg.W = 0) (hle : w ≤ hi) :
-    ∃ a cache', loadWindow cfg n cache w = .ok (a, cache') ∧ Good n.chain cfg.W w a ∧ CacheGood cfg n cache' := by
+    (hs : Servable cfg n hi) (hc : CacheGood cfg n cache) (hw : w % cfg.W = 0) (hfw : al cfg.W n.floor ≤ w)
+    (hle : w ≤ hi) :
+    ∃ a cache', loadWindow cfg n cache w = .ok (a, cache') ∧ Good n.chain cfg.W n.floor w a ∧ CacheGood cfg n cache' := by
   unfold loadWindow
   by_cases h1 : w = n.running.from_
   · refine ⟨n.running, cache, by simp [h1], ?_, hc⟩
@@ -129,7 +130,7 @@ theorem loadWindow_ok (cfg : Cfg) (n : Node) (hi : Nat) (cache : WinMap) (w : Na
       · cases h; exact hc w a hm
       · exact hc w' a' h
     | none =>
-      obtain ⟨a, hp, hf, hg⟩ := hs.persisted w hw hle h1
+      obtain ⟨a, hp, hf, hg⟩ := hs.persisted w hw hfw hle h1
       simp only [hp]
       have : (a.from_ != w) = false := by simp [hf]
       simp only [this, Bool.false_eq_true, if_false]
@@ -181,7 +182,7 @@ theorem scanWindows_spec (cfg : Cfg) (n : Node) (f : Filter) (chunk limit start 
       lo ≤ to + 1 →
       (k = 0 → lo = to + 1 ∧ skip = 0) →
       (1 ≤ k → lo ≤ to ∧ max start w = lo ∧ w % cfg.W = 0 ∧ w ≤ lo ∧ lo < w + cfg.W ∧
-        w + k * cfg.W ≤ to + cfg.W ∧ to < w + k * cfg.W) →
+        w + k * cfg.W ≤ to + cfg.W ∧ to < w + k * cfg.W ∧ al cfg.W n.floor ≤ w ∧ n.floor ≤ lo) →
       (skip = 0 ∨ (selFrom f n.chain lo skip ≠ [] ∧ (limit = 0 ∨ sc < limit))) →
       acc.length ≤ chunk →
       WinPost f n.chain chunk limit lo to acc skip sc
@@ -199,11 +200,11 @@ theorem scanWindows_spec (cfg : Cfg) (n : Node) (f : Filter) (chunk limit start 
       simp [this, wantN]
   | succ k ih =>
     intro w lo cache acc skip sc hc _ _ h1 hskip hacc
-    obtain ⟨hlo, hmax, hal, hwlo, hlow, hk1, hk2⟩ := h1 (by omega)
+    obtain ⟨hlo, hmax, hal, hwlo, hlow, hk1, hk2, hfw, hfl⟩ := h1 (by omega)
     rw [Nat.succ_mul] at hk1 hk2
     rw [windows_succ']
     unfold scanWindows
-    obtain ⟨a, cache', hload, hgood, hc'⟩ := loadWindow_ok cfg n to cache w hs hc hal (by omega)
+    obtain ⟨a, cache', hload, hgood, hc'⟩ := loadWindow_ok cfg n to cache w hs hc hal hfw (by omega)
     simp only [hload, hmax]
     -- the block range of this window
     have hW : 1 ≤ cfg.W := by omega
@@ -213,9 +214,9 @@ theorem scanWindows_spec (cfg : Cfg) (n : Node) (f : Filter) (chunk limit start 
     have hhiw : min to (w + (cfg.W - 1)) ≤ w + (cfg.W - 1) := Nat.min_le_right _ _
     generalize hhidef : min to (w + (cfg.W - 1)) = hi at hhi hhito hhiw
     have hn1 : lo + (hi + 1 - lo) = hi + 1 := by omega
-    have hcands := scanCands_spec f n.chain chunk limit (fun b => mayMatch (a.test b) f) (hi + 1 - lo) lo acc skip sc
-      (by omega)
-      (fun b hb1 hb2 hne => no_false_neg_window f n.chain cfg.W w a hgood hwf b (by omega) (by omega) hne)
+    have hcands := scanCands_spec f n.chain n.floor chunk limit (fun b => mayMatch (a.test b) f) (hi + 1 - lo) lo acc skip sc
+      hfl (by omega)
+      (fun b hb1 hb2 hne => no_false_neg_window f n.chain cfg.W n.floor w a hgood hwf b (by omega) (by omega) (by omega) hne)
       (by
         rcases hskip with h | ⟨h, h'⟩
         · exact Or.inl h
@@ -231,7 +232,7 @@ theorem scanWindows_spec (cfg : Cfg) (n : Node) (f : Filter) (chunk limit start 
       omega
     unfold windowCands
     revert hcands
-    cases scanCands f n.chain chunk limit (List.filter (fun b => mayMatch (a.test b) f) (List.range' lo (hi + 1 - lo))) acc skip sc with
+    cases scanCands f n.chain n.floor chunk limit (List.filter (fun b => mayMatch (a.test b) f) (List.range' lo (hi + 1 - lo))) acc skip sc with
     | fail e => simp [CandsPost]
     | stop acc' tok =>
       simp only [CandsPost]
@@ -267,7 +268,7 @@ theorem scanWindows_spec (cfg : Cfg) (n : Node) (f : Filter) (chunk limit start 
             have : w + (cfg.W - 1) ≤ to := by omega
             exact Nat.min_eq_right this
           have hst : start ≤ lo := by rw [← hmax]; exact Nat.le_max_left _ _
-          refine ⟨by omega, ?_, ?_, by omega, by omega, by omega, by omega⟩
+          refine ⟨by omega, ?_, ?_, by omega, by omega, by omega, by omega, by omega, by omega⟩
           · rw [Nat.max_eq_right (by omega)]; omega
           · rw [Nat.add_mod, hal]; simp)
         (Or.inl rfl) hL
@@ -297,11 +298,11 @@ theorem windowsOf_form (W start to : Nat) :
 
 theorem Servable.mono {cfg : Cfg} {n : Node} {hi hi' : Nat} (hs : Servable cfg n hi) (h : hi' ≤ hi) :
     Servable cfg n hi' :=
-  ⟨hs.running, fun w h1 h2 h3 => hs.persisted w h1 (by omega) h3⟩
+  ⟨hs.running, fun w h1 h2 h3 h4 => hs.persisted w h1 h2 (by omega) h4⟩
 
 theorem canonical_spec (cfg : Cfg) (n : Node) (f : Filter) (chunk limit start to skip : Nat)
     (hW : 1 ≤ cfg.W) (hto : to < n.chain.length) (hwf : ChainWF n.chain)
-    (hs : Servable cfg n to) (hc : CacheGood cfg n n.cache)
+    (hs : Servable cfg n to) (hc : CacheGood cfg n n.cache) (hfl : n.floor ≤ start)
     (hskip : skip = 0 ∨ selFrom f n.chain start skip ≠ []) :
     WinPost f n.chain chunk limit start to [] skip 0 (canonical cfg n f chunk limit start to skip).1 ∧
       CacheGood cfg n (canonical cfg n f chunk limit start to skip).2 := by
@@ -328,7 +329,8 @@ theorem canonical_spec (cfg : Cfg) (n : Node) (f : Filter) (chunk limit start to
       hc (by omega) (by intro h; omega)
       (by
         intro _
-        refine ⟨hle, Nat.max_eq_left (by omega), Nat.mul_mod_left _ _, by omega, by omega, by omega, by omega⟩)
+        refine ⟨hle, Nat.max_eq_left (by omega), Nat.mul_mod_left _ _, by omega, by omega, by omega, by omega, ?_, hfl⟩
+        rw [← al_eq_div_mul]; exact al_mono _ _ _ hfl)
       (by
         rcases hskip with h | h
         · exact Or.inl h
@@ -349,7 +351,8 @@ theorem events_eq (cfg : Cfg) (n : Node) (f : Filter) (fromB toB : Nat) (tok : O
       match n.chain.length with
       | 0 => (.err .empty, n.cache)
       | latest + 1 =>
-        if toB ≤ latest then canonical cfg n f chunk limit (startOf fromB tok) toB (skipOf tok)
+        if startOf fromB tok ≤ latest && startOf fromB tok < n.floor then (.err .pruned, n.cache)
+        else if toB ≤ latest then canonical cfg n f chunk limit (startOf fromB tok) toB (skipOf tok)
         else if startOf fromB tok ≤ latest then canonical cfg n f chunk limit (startOf fromB tok) latest (skipOf tok)
         else (.ok [] Token.none, n.cache) := by
   cases tok <;> rfl
@@ -357,6 +360,7 @@ theorem events_eq (cfg : Cfg) (n : Node) (f : Filter) (fromB toB : Nat) (tok : O
 theorem events_spec (cfg : Cfg) (n : Node) (f : Filter) (fromB toB : Nat) (tok : Option Token) (chunk limit latest : Nat)
     (hW : 1 ≤ cfg.W) (hlen : n.chain.length = latest + 1) (hwf : ChainWF n.chain)
     (hs : Servable cfg n (min toB latest)) (hc : CacheGood cfg n n.cache)
+    (hfl : n.floor ≤ startOf fromB tok)
     (hskip : skipOf tok = 0 ∨ selFrom f n.chain (startOf fromB tok) (skipOf tok) ≠ []) :
     WinPost f n.chain chunk limit (startOf fromB tok) (min toB latest) [] (skipOf tok) 0
         (events cfg n f fromB toB tok chunk limit).1 ∧
@@ -367,16 +371,19 @@ theorem events_spec (cfg : Cfg) (n : Node) (f : Filter) (fromB toB : Nat) (tok :
   · rename_i latest' heq
     have : latest' = latest := by omega
     subst this
+    have hnp : (decide (startOf fromB tok ≤ latest') && decide (startOf fromB tok < n.floor)) = false := by
+      simp only [Bool.and_eq_false_iff, decide_eq_false_iff_not]; right; omega
+    simp only [hnp, Bool.false_eq_true, if_false]
     by_cases h1 : toB ≤ latest'
     · simp only [h1, if_true]
       rw [Nat.min_eq_left h1] at hs ⊢
-      exact canonical_spec cfg n f chunk limit _ toB _ hW (by omega) hwf hs hc hskip
+      exact canonical_spec cfg n f chunk limit _ toB _ hW (by omega) hwf hs hc hfl hskip
     · simp only [h1, if_false]
       have hmin : min toB latest' = latest' := Nat.min_eq_right (by omega)
       rw [hmin] at hs ⊢
       by_cases h2 : startOf fromB tok ≤ latest'
       · simp only [h2, if_true]
-        exact canonical_spec cfg n f chunk limit _ latest' _ hW (by omega) hwf hs hc hskip
+        exact canonical_spec cfg n f chunk limit _ latest' _ hW (by omega) hwf hs hc hfl hskip
       · simp only [h2, if_false]
         refine ⟨Or.inl ⟨rfl, ?_, by simp⟩, hc⟩
         have : latest' + 1 - startOf fromB tok = 0 := by omega
@@ -387,6 +394,7 @@ theorem events_spec (cfg : Cfg) (n : Node) (f : Filter) (fromB toB : Nat) (tok :
 theorem collect_spec (cfg : Cfg) (f : Filter) (fromB toB chunk limit latest : Nat) (hW : 1 ≤ cfg.W) (hchunk : 1 ≤ chunk) :
     ∀ (fuel : Nat) (n : Node) (tok : Option Token),
       n.chain.length = latest + 1 → ChainWF n.chain → Servable cfg n (min toB latest) → CacheGood cfg n n.cache →
+      n.floor ≤ startOf fromB tok →
       (skipOf tok = 0 ∨ selFrom f n.chain (startOf fromB tok) (skipOf tok) ≠ []) →
       (wantN f n.chain (startOf fromB tok) (min toB latest + 1 - startOf fromB tok) (skipOf tok)).length
         + (min toB latest + 1 - startOf fromB tok) < fuel →
@@ -394,12 +402,12 @@ theorem collect_spec (cfg : Cfg) (f : Filter) (fromB toB chunk limit latest : Na
         some (wantN f n.chain (startOf fromB tok) (min toB latest + 1 - startOf fromB tok) (skipOf tok)) := by
   intro fuel
   induction fuel with
-  | zero => intro n tok _ _ _ _ _ h; omega
+  | zero => intro n tok _ _ _ _ _ _ h; omega
   | succ fuel ih =>
-    intro n tok hlen hwf hs hc hskip hfuel
+    intro n tok hlen hwf hs hc hfl hskip hfuel
     unfold collect
     simp only [query]
-    obtain ⟨hpost, hcg⟩ := events_spec cfg n f fromB toB tok chunk limit latest hW hlen hwf hs hc hskip
+    obtain ⟨hpost, hcg⟩ := events_spec cfg n f fromB toB tok chunk limit latest hW hlen hwf hs hc hfl hskip
     revert hpost
     cases hr : (events cfg n f fromB toB tok chunk limit).1 with
     | err e => simp [WinPost]
@@ -417,6 +425,7 @@ theorem collect_spec (cfg : Cfg) (f : Filter) (fromB toB chunk limit latest : Na
         simp only [hne, Bool.false_eq_true, if_false]
         have hrec := ih { n with cache := (events cfg n f fromB toB tok chunk limit).2 } (some t)
           hlen hwf ⟨hs.running, hs.persisted⟩ hcg
+          (by show n.floor ≤ t.b; simp only [startOf] at h1 hfl ⊢; omega)
           (by simpa [skipOf, startOf] using hv)
           (by
             simp only [startOf, skipOf]
